@@ -410,6 +410,8 @@ def run_history(scenario):
             bad = 0
             first = None
             for u, v in aa.edges:
+                if float(aa.edges[u, v].get("order", 1) or 0) == 0:
+                    continue        # the '.' of a salt is no bond
                 dist = float(np.linalg.norm(aa.nodes[u]["position"] - aa.nodes[v]["position"]))
                 if not (lo <= dist <= hi):
                     bad += 1
